@@ -33,7 +33,7 @@ LEVEL_NOTE = ('Trusted: bvf/decoders.py; the image written by the tool is the re
 def _cases(draw, tier):
     cfg = draw(G.layout_isa(zones=True, blocks=True))
     b, feats = G.general_program(draw, cfg, max_steps=22, extra=['include', 'include', 'probe', 'probe', 'mute', 'local', 'local', 'lprobe', 'lprobe', 'lprobe'])
-    return {'isa': cfg, 'items': b.items, 'lo': b.lo, 'feats': sorted(feats)}
+    return {'isa': cfg, 'items': b.items, 'lo': b.lo, 'feats': sorted(feats), 'wpick': draw(st.integers(0, 10 ** 6))}
 
 
 def strategy(tier):
@@ -140,9 +140,44 @@ def execute(case, ctx):
                 if bad:
                     d['address_column_mismatches'] = bad[:10]
                     findings.append(Finding('C16/listing/address-column-differs-from-layout', d))
+    # the formats rendered by the very invocation that writes a windowed image: a window start inside a statement
+    windowed = False
+    strad = [ln for ln in lay.lines if ln['has_bytes'] and ln['size'] >= 2 and not ln['muted'] and ln['addr'] >= lo]
+    wp = case.get('wpick', 0)
+    if strad and not findings:
+        ln = strad[wp % len(strad)]
+        ws = ln['addr'] + 1 + (wp // len(strad)) % (ln['size'] - 1)
+        windowed = True
+        for fmt in [('intel_hex', 'hex', 'minhex', 'listing')[(wp + j) % 4] for j in range(2)]:
+            r = runner.run_forked(['compile', '-c', fname, '-s', str(ws), '-e', str(hi), '-f', '0', '-o', 'w.bin', '-p', '-t', fmt,
+                                   '--pretty-print-output', 'pp.txt', 'main.asm'], files)
+            evals += 1
+            d = dict(detail)
+            d['format'] = fmt
+            d['window'] = [ws, hi]
+            if r.klass != 'accepted' or 'pp.txt' not in r.outputs or 'w.bin' not in r.outputs:
+                d['run'] = r.brief()
+                findings.append(Finding(f'C16/{fmt}/rendering-failed/with-image-window', d))
+                continue
+            text = r.outputs['pp.txt'].decode(errors='replace')
+            d['output'] = text[:3000]
+            try:
+                got = {'intel_hex': D.intel_hex, 'hex': D.hex_dump, 'minhex': lambda t: D.minhex(t, isa.origin),
+                       'listing': lambda t: D.listing(t)[0]}[fmt](text)
+            except D.DecodeError as e:
+                d['decode_error'] = str(e)
+                findings.append(Finding(f'C16/{fmt}/not-decodable/with-image-window', d))
+                continue
+            w = r.outputs['w.bin']
+            if w != a[ws - lo:]:
+                d['image'] = w.hex()[:400]
+                findings.append(Finding('C16/windowed-image-differs-from-full-image', d))
+            elif {k: v for k, v in got.items() if ws <= k <= hi} != {k: v for k, v in ref.items() if ws <= k <= hi}:
+                findings.append(Finding(f'C16/{fmt}/memory-map-differs-from-image/with-image-window', d))
     gaps = any(k not in ref for k in range(min(ref), max(ref) + 1)) if ref else False
     long_line = any(ln['size'] > 6 for ln in lay.lines)
     nt = gaps or long_line or 'muted' in feats or 'include' in feats
     classes = ['outcome:accepted'] + (['gap'] if gaps else []) + (['line>6-bytes'] if long_line else []) + \
-              ['feat:' + f for f in sorted(feats & {'muted', 'include', 'zone', 'origin', 'fill'})]
+              ['feat:' + f for f in sorted(feats & {'muted', 'include', 'zone', 'origin', 'fill'})] + \
+              (['window-start-inside-a-statement'] if windowed else [])
     return Outcome(findings, nt, classes, evals, sample={'sources': srcs, 'general': cfg['general'], 'features': sorted(feats)})
